@@ -833,6 +833,25 @@ func MutexDeadlock() string {
 	return ""
 }
 
+// AnyLive reports whether one of the goroutine stacks is running, runnable or in a system call: such a
+// goroutine is making progress (or waiting for the CPU on a busy machine), so the code it belongs to is
+// slow, not stuck.
+func AnyLive(gs []string) bool {
+	for _, g := range gs {
+		head := g
+		if i := strings.IndexByte(g, '\n'); i >= 0 {
+			head = g[:i]
+		}
+		if i := strings.Index(head, " ["); i >= 0 {
+			st := head[i+2:]
+			if strings.HasPrefix(st, "running") || strings.HasPrefix(st, "runnable") || strings.HasPrefix(st, "syscall") {
+				return true
+			}
+		}
+	}
+	return false
+}
+
 // DeadlockMark prefixes the detail string of a failed quiescence when MutexDeadlock found evidence;
 // the lanes' runner turns an inconclusive outcome carrying it into a violation.
 const DeadlockMark = "LIBRARY-DEADLOCK"
